@@ -44,7 +44,7 @@ def _pat_set(p, variants):
         for s in p["subs"]:
             out |= _pat_set(s, variants)
         return out
-    if k == "path":
+    if k in ("path", "ts", "struct"):
         v = p["res"].get("def", "").split("::")[-1]
         if v in variants:
             return {v}
